@@ -699,7 +699,8 @@ def check_c16():
     firsts = list(range(0, NL + 1))
     if quick:
         firsts = [0] + sorted(rng.sample(range(1, NL + 1), 10))
-    states, cases = spec_run(rep, "C16", wd, 3, firsts)
+    fam = structured_sources(rng, 2500 if quick else 100000)
+    states, cases = spec_run(rep, "C16", wd, 3, firsts, extra=fam)
     cs, meta = [], []
     # (a) identity on directive-free texts over the look-alike alphabet
     plain = [l for l in LOOKALIKES if not is_directive_line(l)]
@@ -776,8 +777,12 @@ def check_c16():
                     rep.violation(f"ord:{json.dumps(c['src'])}", f"ordinary line {l!r} of {c['src']} is missing or out of order in {out!r}", dict(src=c["src"], out=out))
                     break
                 pos = j + len(l)
+    # every ordinary line is written when it is met (never dropped, duplicated or altered): the line-loop trace of each
+    # build is validated step by step against PpCore.tla (PpTrace.tla); a rejected step counts when the bytes are wrong too
+    n_traced, step_events = step_traces(rep, wd, [c for c in cases if len(c["src"]) >= 3], rng, 3000 if quick else 30000, key_prefix="c16trace")
     rep.coverage.update(dict(
-        states=states, transitions=states, traces_validated_against_impl=len(cs),
+        states=states, transitions=states, traces_validated_against_impl=len(cs) + n_traced,
+        line_loop_traces_validated=n_traced,
         identity_texts=counts["identity"], write_round_trips=counts["escape"], order_checks=counts["order"],
         rule="(a) every directive-free text of up to 3 lines over a look-alike alphabet (TXTPP#runx, 'TXTPP #run', xTXTPP#zz, tag names, prefixes, "
              "whitespace, non-ASCII) x LF/CRLF x trailing x final newline: output = lines joined; (b) random texts of 1-5 lines over an alphabet "
